@@ -205,5 +205,6 @@ def _decay(t):
     for ti in range(len(t["targets"])):
         for li in range(1, len(t["restlists"])):
             if (0, ti) in results and (li, ti) in results:
-                evs.append({"ev": "restlist", "id": "%s#rl%d:%d" % (t["id"], li, ti), "a": results[(0, ti)], "b": results[(li, ti)]})
+                evs.append({"ev": "restlist", "id": "%s#rl%d:%d" % (t["id"], li, ti), "a": results[(0, ti)], "b": results[(li, ti)],
+                            "boundary": abs(t["targets"][ti] - 1.0) < 1e-6})
     return evs
